@@ -180,7 +180,11 @@ impl<'a> Colrv1ClosureContext<'a> {
             return;
         }
 
-        let last_var_index = var_index_base + num_vars as u32 - 1;
+        // No valid index lies beyond the range of a u32, so ignore a range
+        // that would overflow (as HarfBuzz does)
+        let Some(last_var_index) = var_index_base.checked_add(num_vars as u32 - 1) else {
+            return;
+        };
         self.variation_indices
             .insert_range(var_index_base..=last_var_index);
     }
@@ -269,7 +273,11 @@ impl PaintColrLayers<'_> {
             return;
         };
         let first_layer_index = self.first_layer_index();
-        let last_layer_index = first_layer_index + num_layers as u32 - 1;
+        // No layer can have an index beyond the range of a u32, so ignore a
+        // range that would overflow (as HarfBuzz does)
+        let Some(last_layer_index) = first_layer_index.checked_add(num_layers as u32 - 1) else {
+            return;
+        };
         c.add_layer_indices(first_layer_index, last_layer_index);
 
         let offset_data = layer_list.offset_data();
